@@ -32,13 +32,20 @@ func jwks(keys []KeyEntry) []jose.JSONWebKey {
 }
 
 // staticKeySet is what an application with a fixed key list writes: select with oidc.FindMatchingKey, verify with go-jose.
-type staticKeySet struct{ keys []jose.JSONWebKey }
+type staticKeySet struct {
+	keys  []jose.JSONWebKey
+	multi bool // verify with VerifyMulti: "exactly one signature" is then enforced by the library's CheckSignature alone
+}
 
 func (s *staticKeySet) VerifySignature(ctx context.Context, jws *jose.JSONWebSignature) ([]byte, error) {
 	kid, alg := oidc.GetKeyIDAndAlg(jws)
 	key, err := oidc.FindMatchingKey(kid, oidc.KeyUseSignature, alg, s.keys...)
 	if err != nil {
 		return nil, err
+	}
+	if s.multi {
+		_, _, payload, err := jws.VerifyMulti(&key)
+		return payload, err
 	}
 	return jws.Verify(&key)
 }
@@ -130,7 +137,7 @@ func execute(c Case, tok string, res *vkit.Result) []outcome {
 		var tr *jwksTransport
 		calls := 1
 		if c.Kind == kRPStatic {
-			ks = &staticKeySet{keys: jwks(c.Keys)}
+			ks = &staticKeySet{keys: jwks(c.Keys), multi: c.MultiKS}
 		} else {
 			body, err := json.Marshal(jose.JSONWebKeySet{Keys: jwks(c.Keys)})
 			if err != nil {
@@ -221,7 +228,7 @@ func execute(c Case, tok string, res *vkit.Result) []outcome {
 		if c.Kind == kAssert {
 			v = op.NewJWTProfileVerifier(newStore(c), issuer, 0, 0, vopts...)
 		} else {
-			v = op.NewJWTProfileVerifierKeySet(&staticKeySet{keys: jwks(c.Keys)}, issuer, 0, 0, vopts...)
+			v = op.NewJWTProfileVerifierKeySet(&staticKeySet{keys: jwks(c.Keys), multi: c.MultiKS}, issuer, 0, 0, vopts...)
 		}
 		req, err := op.VerifyJWTAssertion(ctx, tok, v)
 		o := outcome{Accepted: err == nil, Err: errStr(err)}
@@ -370,6 +377,9 @@ func run(c Case) (res *vkit.Result) {
 	}
 
 	// (the evidence keeps the 80 most frequent labels: relation / form / single manipulations are part of Key and Info only)
+	if c.MultiKS {
+		res.Label("keyset:verify-multi")
+	}
 	if c.Delegation {
 		res.Label("delegation:sub=" + map[bool]string{true: "issuer", false: "other"}[c.Tok.Sub == ""])
 	}
@@ -425,7 +435,7 @@ func run(c Case) (res *vkit.Result) {
 	} else if len(v.Grey) > 0 {
 		vc = "grey:" + strings.Join(v.Grey, "+")
 	}
-	res.Key = fmt.Sprintf("%s|%s|%v|%s|%s|%v|%s|%s|%v|%s|%v%v", c.Kind, c.Router, manipNames(c), keySetShape(c.Keys), keySetShape(c.Keys2), c.Algs, c.Tok.Alg, c.Tok.Relation, c.Tok.HasKID, vc, c.Warm, c.SkipRemote) + "|" + c.Tok.Sub
+	res.Key = fmt.Sprintf("%s|%s|%v|%s|%s|%v|%s|%s|%v|%s|%v%v", c.Kind, c.Router, manipNames(c), keySetShape(c.Keys), keySetShape(c.Keys2), c.Algs, c.Tok.Alg, c.Tok.Relation, c.Tok.HasKID, vc, c.Warm, c.SkipRemote) + "|" + c.Tok.Sub + fmt.Sprint(c.MultiKS)
 	if c.Raw != nil {
 		res.Key += "|" + string(c.Raw)
 	}
